@@ -22,6 +22,7 @@ const (
 	vkSignedRange
 	vkLeafref
 	vkLeafrefValue
+	vkLeafrefTwoInstances
 )
 
 func vDkLeaf(leafElems []string, keyOf bool, keyVal string) *vLeaf {
@@ -84,6 +85,31 @@ func vScenarioValidators() (*vScenario, int) {
 			typ.onlyOwner, name.onlyOwner, name.tiedTo, target.onlyOwner = "A", "A", typ.id, "B"
 		}
 		sc = &vScenario{leaves: []*vLeaf{typ, name, target, vIfKeyLeaf("lo1")}, owners: []string{"A", "B"}}
+	case vkLeafrefTwoInstances:
+		// two instances of a leafref whose path has a current()-relative key predicate
+		// (network-instance/interface/interface-ref/subinterface ->
+		// /interface[name=current()/../interface]/subinterface/index) that resolve to DIFFERENT
+		// keys in one validation run: ethernet-1/1.1 -> ethernet-1/1 / n1, ethernet-1/2.2 -> ethernet-1/2 / n2.
+		// Intent A holds the interfaces (subinterface 1 of ethernet-1/1, subinterface 2 of
+		// ethernet-1/2), intent B the references; the referenced indices n1, n2 are 1 or 2.
+		subDescr := func(ifn, idx string) *vLeaf {
+			return &vLeaf{id: "interface[name=" + ifn + "]/subinterface[index=" + idx + "]/description",
+				elems: []*sdcpb.PathElem{vPE("interface", "name", ifn), vPE("subinterface", "index", idx), vPE("description")},
+				strs:  []string{"interface", ifn, "subinterface", idx, "description"}, onlyOwner: "A"}
+		}
+		ref := func(niIf, leaf string) *vLeaf {
+			return &vLeaf{id: "network-instance[name=default]/interface[name=" + niIf + "]/interface-ref/" + leaf,
+				elems: []*sdcpb.PathElem{vPE("network-instance", "name", "default"), vPE("interface", "name", niIf), vPE("interface-ref"), vPE(leaf)},
+				strs:  []string{"network-instance", "default", "interface", niIf, "interface-ref", leaf}, onlyOwner: "B"}
+		}
+		d1, d2 := subDescr("ethernet-1/1", "1"), subDescr("ethernet-1/2", "2")
+		i1, s1 := ref("ethernet-1/1.1", "interface"), ref("ethernet-1/1.1", "subinterface")
+		i2, s2 := ref("ethernet-1/2.2", "interface"), ref("ethernet-1/2.2", "subinterface")
+		i1.enum, i2.enum = []string{"ethernet-1/1"}, []string{"ethernet-1/2"}
+		s1.isUint, s2.isUint = true, true
+		s1.uintChoice, s2.uintChoice = []uint64{1, 2}, []uint64{1, 2}
+		s1.tiedTo, s2.tiedTo = i1.id, i2.id
+		sc = &vScenario{leaves: []*vLeaf{d1, d2, i1, s1, i2, s2}, owners: []string{"A", "B"}}
 	default:
 		// leaf patterntest { type string { length "7..10"; pattern 'hallo [0-9a-fA-F]*' } }
 		sc = &vScenario{leaves: []*vLeaf{
@@ -175,6 +201,25 @@ func (st *vState) validAspects(kind int) map[string]bool {
 		}
 		out["leafref-name"] = okName
 		out["leafref-value"] = okType
+	case vkLeafrefTwoInstances:
+		d1, d2, i1, s1, i2, s2 := sc.leaves[0], sc.leaves[1], sc.leaves[2], sc.leaves[3], sc.leaves[4], sc.leaves[5]
+		has := func(l *vLeaf) bool { return st.managed(l) }
+		val := func(l *vLeaf) uint64 { return st.val[l.id]["B"].u }
+		ok1, ok2 := true, true
+		if has(i1) {
+			ok1 = has(d1) // /interface/name of ethernet-1/1 exists
+			if has(s1) {
+				ok1 = ok1 && val(s1) == 1 // and its subinterface n1 exists
+			}
+		}
+		if has(i2) {
+			ok2 = has(d2)
+			if has(s2) {
+				ok2 = ok2 && val(s2) == 2
+			}
+		}
+		out["leafref-first-instance"] = ok1
+		out["leafref-second-instance"] = ok2
 	case vkLeafList:
 		l := sc.leaves[0]
 		ok := true
@@ -230,7 +275,7 @@ func (st *vState) managed(l *vLeaf) bool {
 
 func vAllValid(a map[string]bool) bool {
 	v := true
-	for _, k := range []string{"mandatory", "min-max-elements", "range", "pattern", "length", "leafref", "leafref-name", "leafref-value"} {
+	for _, k := range []string{"mandatory", "min-max-elements", "range", "pattern", "length", "leafref", "leafref-name", "leafref-value", "leafref-first-instance", "leafref-second-instance"} {
 		if b, ok := a[k]; ok {
 			v = verifrt.And(v, b)
 		}
@@ -303,7 +348,16 @@ func vRejected(rsp *sdcpb.TransactionSetResponse, err error) bool {
 func VerifVerdictIsValidity() {
 	sc, kind := vScenarioValidators()
 	env := vNewEnv()
-	pre := vArbitraryState(sc)
+	var pre *vState
+	if verifrt.Param("empty", 0) == 1 {
+		// empty stores; the configuration arrives in one transaction, possibly split over two intents
+		pre = vNewState(sc)
+		for i, o := range sc.owners {
+			pre.prio[o] = int32(2000 + i)
+		}
+	} else {
+		pre = vArbitraryState(sc)
+	}
 	if kind == vkMandatory {
 		// inside a list entry the fate of device leaves no intent defines is not fixed by the
 		// statement: the entry holds only what intents define
@@ -317,9 +371,14 @@ func VerifVerdictIsValidity() {
 	// one; the device's own, unmanaged configuration is valid too)
 	verifrt.Assume(vAllValid(pre.validAspects(kind)))
 	pre.install(env)
-	req := vArbitraryRequest(pre, "req.", verifrt.Choice("req.owner", len(sc.owners)))
-	verifrt.Assume(!(req.del && req.orphan)) // orphan delete: the device keeps what it has; no resulting configuration is defined
-	reqs := []*vRequest{req}
+	reqs := vArbitraryRequests(pre)
+	req := reqs[0]
+	for _, r := range reqs {
+		verifrt.Assume(!(r.del && r.orphan)) // orphan delete: the device keeps what it has; no resulting configuration is defined
+		if verifrt.Param("empty", 0) == 1 {
+			verifrt.Assume(!r.del)
+		}
+	}
 	post := pre.apply(reqs)
 	for _, l := range sc.leaves {
 		if l.keyOf == "" && pre.rpres[l.id] && !pre.managed(l) {
